@@ -23,7 +23,16 @@ THEOREMS = {"CbProps.C14": ["CbProps.C14." + t for t in [
         "yield_resumes_at_next_statement"]]}
 
 FEATURES = ["base", "yield_top", "yield_in_for", "yield_in_while", "yield_in_if", "yield_in_else", "nested_for", "nested_for_yield",
-            "same_counter", "if_cond_changes", "while_top", "locals_many", "early_return", "yield_in_block", "for_in_if"]
+            "same_counter", "if_cond_changes", "while_top", "locals_many", "early_return", "yield_in_block", "for_in_if", "call_fn_loop"]
+HELPERS = "int hsum(int n) {\n    int s = 0;\n    for (int q = 0; q < n; q++) {\n        s = s + q;\n    }\n    return s;\n}\nint hwhile(int n) {\n    int c = 0;\n    while (n > 0) {\n        n = n - 1;\n        c = c + 2;\n    }\n    return c;\n}\n"
+
+
+def hsum(n):
+    return sum(range(max(0, n)))
+
+
+def hwhile(n):
+    return 2 * max(0, n)
 
 
 class Gen:
@@ -78,6 +87,9 @@ class Gen:
             b += [("If", "x > -1000", self.simple(1) + [("Ret",)], [])] + self.simple(1)
         elif f == "yield_in_block":
             b += [("Block", self.simple(1) + [("Y",)] + self.simple(1))] + self.simple(1)
+        elif f == "call_fn_loop":
+            # the task calls ordinary functions that contain loops, between suspensions
+            b += [("A", "x = x + hsum(4)"), ("Y",), ("A", "y = y + hwhile(3)"), self.P(), ("For", i1, 2, [("A", "x = x + hsum(3)"), ("Y",), self.P()])] + self.simple(1)
         elif f == "for_in_if":
             b += [("If", "x > -1000", [("For", i1, 2, self.simple(1))] + self.simple(1), [])] + self.simple(1)
         return b
@@ -116,13 +128,20 @@ def wrap32(v):
     return (v + 2**31) % 2**32 - 2**31
 
 
+def wrap64(v):
+    return (v + 2**63) % 2**64 - 2**63
+
+
+WIDE = 3000000000      # a task whose parameter is at least this large is rendered with long parameter / locals / result
+
+
 def run_alone(name, b, p):
     """reference: what the body prints / returns when executed sequentially"""
     env = {"x": p, "y": 1, "p": p}
     out = []
 
     def ev(expr):
-        return eval(expr.replace("&&", " and ").replace("||", " or "), {}, dict(env))
+        return eval(expr.replace("&&", " and ").replace("||", " or "), {"hsum": hsum, "hwhile": hwhile}, dict(env))
 
     def ex(stmts):
         for s in stmts:
@@ -131,7 +150,7 @@ def run_alone(name, b, p):
                 out.append("%s %d %d %d %d" % (name, s[1], env["x"], env["y"], env["p"]))
             elif k == "A":
                 var, e = s[1].split(" = ", 1)
-                env[var] = wrap32(ev(e))
+                env[var] = (wrap64 if abs(p) >= 2**31 else wrap32)(ev(e))
             elif k == "Ret":
                 raise Ret()
             elif k == "For":
@@ -160,37 +179,43 @@ def gen_case(r, feature, shared=False):
         # not be shared between two tasks running the same code
         nt = r.range(2, 3)
         body = Gen(r, feature, "nm").body()
-        tasks = [("ABC"[i], body, r.range(-5, 9)) for i in range(nt)]
+        wide = r.chance(30)
+        ty = "long" if wide else "int"
+        tasks = [("ABC"[i], body, r.range(-5, 9) + (WIDE if wide else 0)) for i in range(nt)]
         order = list(range(nt))
         for i in range(nt - 1, 0, -1):
             j = r.below(i + 1)
             order[i], order[j] = order[j], order[i]
-        src = "async int tS(string nm, int p) {\n    int x = p;\n    int y = 1;\n%s    return x;\n}\n" % render_stmts("nm", body, "    ")
-        main = "int main() {\n" + "".join("    Future<int> f%s = tS(\"%s\", %d);\n" % (n, n, p) for n, b, p in tasks)
+        src = "async %s tS(string nm, %s p) {\n    %s x = p;\n    %s y = 1;\n%s    return x;\n}\n" % (ty, ty, ty, ty, render_stmts("nm", body, "    "))
+        main = "int main() {\n" + "".join("    Future<%s> f%s = tS(\"%s\", %d);\n" % (ty, n, n, p) for n, b, p in tasks)
         for i in order:
             n = tasks[i][0]
-            main += "    int r%s = await f%s;\n    println(\"R%s\", r%s);\n" % (n, n, n, n)
+            main += "    %s r%s = await f%s;\n    println(\"R%s\", r%s);\n" % (ty, n, n, n, n)
         main += "    println(\"END\");\n    return 0;\n}\n"
-        return tasks, order, src + main
+        return tasks, order, HELPERS + src + main
     nt = r.range(1, 3)
     tasks = []
     for i in range(nt):
         name = "ABC"[i]
         g = Gen(r, feature if i == 0 or r.chance(50) else "base", name)
         tasks.append((name, g.body(), r.range(-5, 9)))
+    wide = r.chance(30)
+    ty = "long" if wide else "int"
+    if wide:
+        tasks = [(n_, b_, p_ + WIDE) for (n_, b_, p_) in tasks]
     order = list(range(nt))
     for i in range(nt - 1, 0, -1):
         j = r.below(i + 1)
         order[i], order[j] = order[j], order[i]
     src = []
     for name, b, p in tasks:
-        src.append("async int t%s(int p) {\n    int x = p;\n    int y = 1;\n%s    return x;\n}\n" % (name, render_stmts(name, b, "    ")))
-    main = "int main() {\n" + "".join("    Future<int> f%s = t%s(%d);\n" % (n, n, p) for n, b, p in tasks)
+        src.append("async %s t%s(%s p) {\n    %s x = p;\n    %s y = 1;\n%s    return x;\n}\n" % (ty, name, ty, ty, ty, render_stmts(name, b, "    ")))
+    main = "int main() {\n" + "".join("    Future<%s> f%s = t%s(%d);\n" % (ty, n, n, p) for n, b, p in tasks)
     for i in order:
         n = tasks[i][0]
-        main += "    int r%s = await f%s;\n    println(\"R%s\", r%s);\n" % (n, n, n, n)
+        main += "    %s r%s = await f%s;\n    println(\"R%s\", r%s);\n" % (ty, n, n, n, n)
     main += "    println(\"END\");\n    return 0;\n}\n"
-    return tasks, order, "".join(src) + main
+    return tasks, order, HELPERS + "".join(src) + main
 
 
 def main(a):
